@@ -128,7 +128,10 @@ fn near_miss(rng: &mut Rng, prim: &str) -> String {
 
 fn gen_exec(rng: &mut Rng, out: &mut Vec<String>) {
     out.push((*rng.pick(&["-exec", "-execdir"])).to_string());
-    match rng.below(8) {
+    match rng.below(11) {
+        8 => { out.extend(["true", "pre{}", "+", ";"].map(String::from)); }
+        9 => { out.extend(["true", "+", "{}{}", "+", "x", ";"].map(String::from)); }
+        10 => { out.extend(["true", "a{}", "+", "{}", "+"].map(String::from)); }
         0 => { out.extend(["true", "{}", ";"].map(String::from)); }
         1 => { out.extend(["cp", "ref", "trace", ";"].map(String::from)); }
         2 => { out.extend(["true", "{}", "+"].map(String::from)); }
@@ -339,7 +342,7 @@ pub fn run_prop(ctx: &Ctx, sink: &mut Sink) {
         vec!["t", "(", "-true"], vec!["t", "-true", ")"], vec!["t", "(", ")"], vec!["t", "-print", "(", ")"], vec!["t", "(", "(", "-true", ")"],
         vec!["t", "(", "-true", ")", ")"], vec!["t", "(", "-a", "-true", ")"], vec!["t", "(", "-true", "-o", ")"], vec!["t", "(", "!", ")"],
         vec!["t", "-name"], vec!["t", "-print", "-size"], vec!["t", "-fprintf", "out/o1"], vec!["t", "-exec"], vec!["t", "-exec", "true"],
-        vec!["t", "-exec", ";"], vec!["t", "-exec", "{}", "+"], vec!["t", "-exec", "true", "{}", "{}", "+"], vec!["t", "-exec", "true", "+"],
+        vec!["t", "-exec", ";"], vec!["t", "-exec", "{}", "+"], vec!["t", "-exec", "true", "{}", "{}", "+"], vec!["t", "-exec", "true", "+"], vec!["t", "-exec", "true", "pre{}", "+"], vec!["t", "-exec", "true", "pre{}", "+", ";"], vec!["t", "-execdir", "true", "{}{}", "+", ";"],
         vec!["t", "-bogus"], vec!["t", "-print", "-Print"], vec!["t", "-delete", "-bogus"], vec!["t", "-exec", "cp", "ref", "trace", ";", "-bogus"],
         vec!["t", "-delete", "-size", "x"], vec!["t", "-delete", "("], vec!["t", "-exec", "rm", "-rf", "{}", ";", "-o"],
         vec!["t", "-print0", "-printf", "%"], vec!["t", "-print", "-regex", "\\("], vec!["t", "-print", "-regextype", "perl"],
